@@ -191,6 +191,7 @@ func gen(args []string) {
 	tier := fs.String("tier", "quick", "quick|thorough")
 	seed := fs.Int64("seed", 1, "seed")
 	states := fs.String("states", "", "spec states file (from MC_JSONMachine)")
+	floatLits := fs.String("floatlits", "", "number literals, one per abstract class of the scanner model (from MC_FloatScan)")
 	walks := fs.String("walks", "", "spec random walks file (from tlc -simulate)")
 	only := fs.String("only", "", "comma-separated generator names (default: all of the family)")
 	if len(args) < 1 {
@@ -222,7 +223,7 @@ func gen(args []string) {
 		}
 		return false
 	}
-	ctx := &genCtx{sw: sw, tier: *tier, rng: rng, st: st, statesPath: *states, walksPath: *walks, want: want, outDir: *out, seed: *seed}
+	ctx := &genCtx{sw: sw, tier: *tier, rng: rng, st: st, statesPath: *states, floatLitsPath: *floatLits, walksPath: *walks, want: want, outDir: *out, seed: *seed}
 	fn, ok := families[family]
 	if !ok {
 		fmt.Fprintln(os.Stderr, "unknown family", family)
@@ -243,15 +244,16 @@ func gen(args []string) {
 }
 
 type genCtx struct {
-	sw         *shardWriter
-	tier       string
-	rng        *rand.Rand
-	st         *genStats
-	statesPath string
-	walksPath  string
-	want       func(string) bool
-	outDir     string
-	seed       int64
+	sw            *shardWriter
+	tier          string
+	rng           *rand.Rand
+	st            *genStats
+	statesPath    string
+	floatLitsPath string
+	walksPath     string
+	want          func(string) bool
+	outDir        string
+	seed          int64
 }
 
 func (c *genCtx) thorough() bool { return c.tier == "thorough" }
@@ -303,6 +305,8 @@ func genParse(c *genCtx) error {
 	if c.want("digits") {
 		setCurrent("parse digit runs")
 		digitRunInputs(c.thorough(), func(d []byte) { writeDoc(po, c.sw, &j, d, nil, c.st) })
+		setCurrent("parse long numbers")
+		longNumberInputs(c.thorough(), func(sg []seg) { writeDoc(po, c.sw, &j, expandSegs(sg), sg, c.st) })
 		// string runs: content runs of every length x every byte value / escape / multi-byte rune straddling the end of the run
 		setCurrent("parse string runs")
 		stringRunInputs(c.thorough(), 40, func(t []byte, k int) {
